@@ -35,3 +35,18 @@ func init() {
 		},
 	}
 }
+
+func init() {
+	cfgs["C07"] = &propCfg{
+		Workers: map[string]int{"pristine": 16},
+		QuickS:  20, ThorS: 420,
+		Real: []string{"ZoneParser (NewZoneParser, Next, Err, SetIncludeAllowed, SetIncludeFS, SetDefaultTTL)", "zlexer", "$INCLUDE / $GENERATE / $ORIGIN / $TTL handling", "every RR type's text parser reached by the corpus", "ReadRR", "DNSKEY.ReadPrivateKey"},
+		Stub: []string{"the disk: an in-memory fs.FS and io.Reader with injected faults (simfs)", "the os.Open branch of $INCLUDE (an fs.FS is always configured)"},
+		Rule: "A run = one generated file tree (1..4 zone files built from a corpus of record lines, directives, parenthesised records, comments, $INCLUDE of each other / of themselves / of missing files, $GENERATE incl. modifiers and nested ones, optional text damage or one planted bad token) parsed fault-free and again under injected faults (read error at an octet of a file, on the n-th open; open error kinds; directory; short reads), with includes allowed or not, reader with or without ReadByte, various origins and default TTLs; plus include chains of 10/20/40 files, a self-including file, and ReadRR / ReadPrivateKey over a faulty reader. Non-trivial = something was parsed or an error was produced. Distinct = distinct digest of (record list hash, error class, fault outcome) of the run.",
+		Assume: []string{
+			"the 'all byte strings as zone text' dimension is only sampled through the generator's damage operators; what the simulation adds is behaviour over I/O-fault sequences and FS configurations",
+			"under a read error the record or directive in progress is not judged (the lexer turns a read error into end-of-input plus a sticky error; the statement is read as not forbidding that)",
+			"non-termination is detected by a 20 s real-time watchdog per parse (typical parse: microseconds)",
+		},
+	}
+}
